@@ -8,6 +8,7 @@ Answer:   `model=<ok | reject@i:<event>:<pc>>[ mon=<failed monitor>…] holds=<0
 -/
 import KafkaVerif.Base.Proto
 import KafkaVerif.Model.GroupRun
+import Oracle.GroupWireOps
 
 namespace KV.OracleC15
 open KV KV.Group
@@ -250,6 +251,7 @@ def answer (line : String) : String :=
         (if decide ((nat cfg "backoff" : Int) ≤ bo + 1 ∧ bo ≤ (nat cfg "backoff" : Int) + 300) then [] else ["backoff"])
       if bad.isEmpty && el > 0 then s!"model={_impl} holds=1"
       else s!"model=options-not-passed-through:{",".intercalate bad} holds=0"
+    | ["wirereq", method, desc] => KV.OracleGW.opWireReq method desc _impl
     | ["hbwait", iv, el] =>
       -- the same observation while the generation waits to be picked up by Next
       match iv.toNat?, el.toNat?, _impl.toNat? with
